@@ -404,7 +404,7 @@ pub fn cmd_conc(args: &[String]) -> i32 {
                             m.insert(
                                 "program".into(),
                                 json!(prog.threads.iter().map(|t| t.iter().map(|o| json!({
-                                    "op": o.op, "f": o.f, "k": o.k, "x": o.x, "ok": o.ok, "cif": o.cif,
+                                    "op": o.op, "f": o.f, "k": o.k, "x": o.x, "ok": o.ok, "cif": o.cif, "size": o.size.max(32),
                                     "sel": if o.sel.is_null() { json!([]) } else { o.sel.clone() }})).collect::<Vec<_>>()).collect::<Vec<_>>()),
                             );
                             m.insert("grants".into(), json!(grants));
